@@ -2,7 +2,7 @@
 from ..framework import Check
 from .. import mgr_check
 
-THEOREMS = ['C19_subscribe_acked', 'C19_unsubscribe_acked', 'C19_noop_still_acked', 'C19_connect_acked_iff_accepted', 'C19_second_connect_not_acked', 'C19_never_acked', 'C19_ack_frame', 'C19_ack_then_loggers', 'C19_ex', 'C19_ack_exact', 'C19_ack_header', 'C19_registry_op_silent', 'C19_lframes_ex', 'C19_ack_exact_ex']
+THEOREMS = ['C19_subscribe_acked', 'C19_unsubscribe_acked', 'C19_noop_still_acked', 'C19_connect_acked_iff_accepted', 'C19_second_connect_not_acked', 'C19_never_acked', 'C19_ack_frame', 'C19_ack_then_loggers', 'C19_ex', 'C19_ack_exact', 'C19_ack_header', 'C19_registry_op_silent', 'C19_lframes_ex', 'C19_ack_exact_ex', 'C19_acked_once', 'C19_acked_once_service', 'C19_ack_fields', 'C19_never_acked_service', 'C19_never_acked_process', 'C19_connect_acked', 'C19_ex_subscribe', 'C19_ex_never_acked', 'C19_ex_connect']
 CHECKERS = ['C19', 'C06', 'C03']
 
 
